@@ -507,7 +507,7 @@ func TypedValueToString(tv *sdcpb.TypedValue) string {
 		// not via int, values above 2^63 would turn negative
 		return strconv.FormatUint(tv.GetUintVal(), 10)
 	case *sdcpb.TypedValue_IdentityrefVal:
-		return tv.GetIdentityrefVal().Value
+		return tv.GetIdentityrefVal().GetValue()
 	}
 	return ""
 }
